@@ -173,7 +173,8 @@ impl Out {
     /// The implementation itself violates the property's oracle on the current case.
     /// `key` identifies the finding (for known_findings.json matching).
     pub fn violation(&mut self, property: &str, key: &str, what: String) {
-        if self.violations.len() < 50 {
+        let same = self.violations.iter().filter(|v| v.property == property && v.key == key).count();
+        if same < 3 && self.violations.len() < 200 {
             let mut replay = self.case_lines();
             if let Some(op) = &self.current_op {
                 if self.stateless {
